@@ -270,6 +270,31 @@ def enumerate_spanning_trees(r: int, c: int) -> list[str]:
 # ----------------------------------------------------------------------------------------------
 
 
+def edge_inclusion_probs(r: int, c: int):
+    """exact probabilities, under the uniform law over spanning trees of the r x c grid, that one lattice edge / two lattice
+    edges belong to the tree (Kirchhoff / transfer-current theorem: P(e in T) = Y(e,e), P(e,f in T) = Y(e,e)Y(f,f) - Y(e,f)^2 with
+    Y(e,f) = G(a,c) - G(a,d) - G(b,c) + G(b,d), G the pseudo-inverse of the graph Laplacian). Returns (edges, p1, p2)."""
+    E = lattice_edges(r, c)
+    n = r * c
+    Lp = np.zeros((n, n))
+    for (i, j), (p_, q) in E:
+        a, b = i * c + j, p_ * c + q
+        Lp[a, a] += 1
+        Lp[b, b] += 1
+        Lp[a, b] -= 1
+        Lp[b, a] -= 1
+    Gm = np.linalg.pinv(Lp)
+    idx = [((i * c + j), (p_ * c + q)) for (i, j), (p_, q) in E]
+    m = len(E)
+    Y = np.zeros((m, m))
+    for x, (a, b) in enumerate(idx):
+        for y, (cc, d) in enumerate(idx):
+            Y[x, y] = Gm[a, cc] - Gm[a, d] - Gm[b, cc] + Gm[b, d]
+    p1 = [float(Y[x, x]) for x in range(m)]
+    p2 = {(x, y): float(Y[x, x] * Y[y, y] - Y[x, y] * Y[y, x]) for x in range(m) for y in range(x + 1, m)}
+    return E, p1, p2
+
+
 def maze_fingerprint(m) -> str:
     """byte-level fingerprint of a library maze object (reads attributes only)"""
     h = hashlib.sha256()
